@@ -858,3 +858,95 @@ Proof.
   destruct (top_step cap t now o) as [ob t1]. cbn [snd] in H1.
   specialize (IH t1 H1). destruct (top_run cap t1 r) as [obs t2]. exact IH.
 Qed.
+
+(* ------------------------------------------------------------------ floods at any pace *)
+(* The closed form above needs all SYNs within one 30 s window.  Whatever the arrival
+   times are (slots idle for more than 30 s are taken over), a flood of one answerable SYN
+   is never fatal and leaves exactly min(n, capacity) slots occupied: the expectation the
+   checker uses does not depend on how long the machine took. *)
+
+Definition all_syn (q : Z * Z * Z * Z) (tb : table) : Prop :=
+  Forall (fun s => exists t, s = Some (tcb_of q S_SYNRCVD t)) tb.
+
+Lemma Forall_set_nth {A} (P : A -> Prop) (l : list A) : forall i x,
+  Forall P l -> P x -> Forall P (set_nth l i x).
+Proof.
+  induction l as [|a r IH]; intros [|i] x H Hx; cbn; auto; inversion H; subst; constructor; auto.
+Qed.
+
+Lemma set_nth_twice {A} (l : list A) : forall i x y, set_nth (set_nth l i x) i y = set_nth l i y.
+Proof. induction l as [|a r IH]; intros [|i] x y; cbn; auto. f_equal; apply IH. Qed.
+
+Lemma all_syn_find_free q tb : all_syn q tb -> find_free tb O = None.
+Proof.
+  intros H. apply find_free_none. unfold all_syn in H. rewrite Forall_forall in *.
+  intros s Hs. destruct (H s Hs) as [t ->]. eexists; split; [reflexivity|].
+  rewrite tcb_of_state. discriminate.
+Qed.
+
+Lemma all_syn_occupied q tb : all_syn q tb -> occupied tb = zlen tb.
+Proof.
+  unfold occupied, zlen. induction 1 as [|s r [t ->] _ IH]; [reflexivity|].
+  cbn [filter length]. rewrite !Nat2Z.inj_succ. lia.
+Qed.
+
+Definition flood_outcome (o : rxo) : Prop := (exists b, o = RTcp 1 b) \/ o = RIgnored 10.
+
+Lemma rx_flood_any c orc f q tb now :
+  answered_syn c f = Some q -> all_syn q tb ->
+  let '(o, tb') := rx c orc tb now f in
+  flood_outcome o /\ all_syn q tb' /\
+  zlen tb' = (if zlen tb <? c_cap c then zlen tb + 1 else zlen tb).
+Proof.
+  intros Ha Hs. rewrite (rx_answered_syn c orc tb now f q Ha).
+  unfold table_add. rewrite (all_syn_find_free q tb Hs).
+  destruct (zlen tb <? c_cap c) eqn:E.
+  - rewrite set_nth_app_last. repeat split.
+    + left; eauto.
+    + apply Forall_app; split; [exact Hs|]. constructor; [eauto|constructor].
+    + rewrite zlen_app. match goal with |- context [zlen [?x]] => replace (zlen [x]) with 1 by reflexivity end. lia.
+  - destruct (find_idle tb 0 now) as [j|].
+    + repeat split.
+      * left; eauto.
+      * (* the intermediate LISTEN entry is overwritten at the same index *)
+        rewrite set_nth_twice. apply Forall_set_nth; [exact Hs|eauto].
+      * rewrite !zlen_set_nth. reflexivity.
+    + repeat split; [right; reflexivity|exact Hs].
+Qed.
+
+Lemma flood_outcome_not_fatal o : flood_outcome o -> is_fatal o = false.
+Proof. intros [[b ->]| ->]; reflexivity. Qed.
+
+Lemma flood_any_timing c orc f q : answered_syn c f = Some q -> forall us tb,
+  all_syn q tb -> zlen tb <= c_cap c ->
+  Forall flood_outcome (run c orc tb (map (fun t => (t, f)) us)) /\
+  exists tb', run_table c orc tb (map (fun t => (t, f)) us) = Some tb' /\ all_syn q tb' /\
+              zlen tb' = Z.min (zlen tb + zlen us) (c_cap c).
+Proof.
+  intros Ha. induction us as [|u r IH]; intros tb Hs Hc.
+  - split; [constructor|]. exists tb. repeat split; auto. rewrite zlen_nil. lia.
+  - cbn [map run run_table].
+    pose proof (rx_flood_any c orc f q tb u Ha Hs) as H.
+    destruct (rx c orc tb u f) as [o tb1]. destruct H as (Ho & Hs1 & Hl).
+    rewrite (flood_outcome_not_fatal o Ho).
+    assert (Hc1 : zlen tb1 <= c_cap c) by (destruct (zlen tb <? c_cap c) eqn:E; lia).
+    destruct (IH tb1 Hs1 Hc1) as [R (tb' & T & Hs' & Hl')].
+    split; [constructor; assumption|]. exists tb'. repeat split; auto.
+    rewrite Hl', Hl, zlen_cons. pose proof (zlen_nonneg r).
+    destruct (zlen tb <? c_cap c) eqn:E; lia.
+Qed.
+
+(* from the empty table: never fatal, min(n, capacity) slots occupied, at any pace *)
+Lemma flood_any_timing_empty c orc f q us :
+  answered_syn c f = Some q -> 0 <= c_cap c ->
+  no_fatal (run c orc [] (map (fun t => (t, f)) us)) /\
+  exists tb', run_table c orc [] (map (fun t => (t, f)) us) = Some tb' /\
+              occupied tb' = Z.min (zlen us) (c_cap c).
+Proof.
+  intros Ha Hc.
+  destruct (flood_any_timing c orc f q Ha us [] (Forall_nil _) ltac:(rewrite zlen_nil; lia))
+    as [R (tb' & T & Hs & Hl)].
+  split.
+  - unfold no_fatal. eapply Forall_impl; [|exact R]. intros o; apply flood_outcome_not_fatal.
+  - exists tb'. split; [exact T|]. rewrite (all_syn_occupied q tb' Hs), Hl, zlen_nil. lia.
+Qed.
